@@ -379,8 +379,7 @@ class RandInfoBuilder(ModelVisitor,RandIF):
 #        super().visit_expr_fieldref(e)
 
     def visit_expr_indexed_dynref(self, e):
-        fm : FieldCompositeModel = Expr2FieldVisitor().field(e.root, True)
-        c = fm.constraint_dynamic_model_l[e.idx]
+        c = e.get_constraint()
         
         # Treat a dynamic constraint as an inline expansion
         # of the constraints in the referenced block
